@@ -176,7 +176,9 @@ def run(res, tier):
             dev = max(abs(a - b) for a, b in zip(final2, finalf))
             popf = fulls[g][1]["datasets"]["/BunchPopulation/data"]["data"]
             qq = max(abs(1 - x) for x in pop + popf + d2["datasets"]["/BunchPopulation/data"]["data"])
-            bound = (2 if imp != "none" else 1) * (qq + 1e-6) * mx   # with an impedance the kick itself scales with the charge: second contribution of the same order
+            # with an impedance the kick itself scales with the charge: second contribution of the same order.  Over the 32-step horizon of the thorough tier the two runs
+            # renormalise a dozen times each, at different steps: each stays within the drift of the never-renormalised shape, their difference within twice that
+            bound = (2 if imp != "none" else 1) * (TOTAL / 16.0) * (qq + 1e-6) * mx
             res.coverage["worst_drift_bounded_ratio"] = max(res.coverage.get("worst_drift_bounded_ratio", 0), dev / bound)
             if dev > bound:
                 res.violate("C11/end-state-differs/%s/%s" % (kb, "impedance" if imp != "none" else "no-impedance"), case,
